@@ -213,6 +213,8 @@ func (r *raceImpl) Exec(h *vh.H, op string) string {
 		case strings.HasPrefix(line, "DEADLOCK"):
 			r.deadlocked = true
 			fail("deadlock", tail(stdout.String(), 1800))
+		case strings.HasPrefix(line, "SLOW "):
+			h.Count("children.slow-extension")
 		case strings.HasPrefix(line, "STATS "):
 			var e, q, st int
 			if n, _ := fmt.Sscanf(line, "STATS %d %d %d", &e, &q, &st); n == 3 {
@@ -670,6 +672,39 @@ const watchdog = 120 * time.Second
 
 var progress, curRound, curPhase atomic.Int64
 
+// runnableOthers counts the goroutines other than the caller that are not blocked on a lock, a
+// channel, a wait group, a condition, a select, I/O, a sleep or a system call (states of the debug=2
+// goroutine dump): running, runnable, assisting the GC …
+func runnableOthers() int {
+	var buf bytes.Buffer
+	_ = pprof.Lookup("goroutine").WriteTo(&buf, 2)
+	n, first := 0, true
+	for _, line := range strings.Split(buf.String(), "\n") {
+		if !strings.HasPrefix(line, "goroutine ") {
+			continue
+		}
+		i, j := strings.Index(line, "["), strings.LastIndex(line, "]")
+		if i < 0 || j < i {
+			continue
+		}
+		if first { // the caller itself, listed first, "running"
+			first = false
+			continue
+		}
+		state := line[i+1 : j]
+		blocked := false
+		for _, b := range []string{"semacquire", "sync.Mutex.Lock", "sync.RWMutex", "sync.WaitGroup.Wait", "sync.Cond.Wait", "chan receive", "chan send", "select", "IO wait", "sleep", "syscall"} {
+			if strings.HasPrefix(state, b) {
+				blocked = true
+			}
+		}
+		if !blocked {
+			n++
+		}
+	}
+	return n
+}
+
 func childMain(args []string) {
 	if len(args) != 5 {
 		fmt.Println("DIFF bad-op usage")
@@ -689,11 +724,22 @@ func childMain(args []string) {
 	// calls alone all go through codecs
 	go func() {
 		last, lastAt := progress.Load(), time.Now()
+		extensions := 0
 		for {
 			time.Sleep(2 * time.Second)
 			if now := progress.Load(); now != last {
 				last, lastAt = now, time.Now()
 			} else if time.Since(lastAt) > watchdog {
+				// a deadlock means nobody can run. On an overloaded machine (load average > 150 with the -race
+				// slow-down) a single call can sit out the watchdog while its goroutine is running or
+				// runnable: that is slow, not stuck (seen: "calls alone" phase, main goroutine inside a
+				// build). Up to six such extensions (14 minutes without a completed call), then it is reported.
+				if extensions < 6 && runnableOthers() > 0 {
+					extensions++
+					lastAt = time.Now()
+					fmt.Printf("SLOW round %d set %s: no call completed for %s but a goroutine is running / runnable (extension %d)\n", curRound.Load(), set, watchdog, extensions)
+					continue
+				}
 				fmt.Printf("DEADLOCK round %d set %s (%s): no call completed for %s, goroutines still running\n", curRound.Load(), set, []string{"preparing inputs", "concurrent calls", "calls alone"}[curPhase.Load()], watchdog)
 				_ = pprof.Lookup("goroutine").WriteTo(os.Stdout, 1)
 				os.Exit(3)
